@@ -222,6 +222,94 @@ mod v_storage_packet {
         drain_equals(&mut pb, &g);
     }
 
+    // ---- states with a padding record at the HEAD of the queue (needs a 5-operation history, beyond the 3-step prefix):
+    // built directly.  Reachable: enqueue A (a bytes), enqueue B (b bytes, a+b = C-k), dequeue A, enqueue P1 (l1 > k, l1 <= a:
+    // pads the k tail bytes and wraps), [enqueue P2], dequeue B  =>  payload read pointer C-k, records [pad(k), P1, (P2)].
+    macro_rules! setup_padded {
+        ($pb:ident, $g:ident) => {
+            let mut meta = [PacketMetadata::<u8>::EMPTY; MC];
+            let mut pay = [0u8; PC];
+            let pc = any_le(PC);
+            let k = any_le(PC);
+            let l1 = any_le(PC);
+            let l2 = any_le(PC);
+            let two: bool = kani::any();
+            kani::assume(pc >= 2 && k >= 1 && k < pc && l1 > k && l1 + (if two { l2 } else { 0 }) <= pc - k);
+            let h1: u8 = kani::any();
+            let h2: u8 = kani::any();
+            let m0 = any_lt(MC);
+            let mut $pb = PacketBuffer::new(&mut meta[..], &mut pay[..pc]);
+            let mut $g = Ghost { q: [GE; 4], popped: true };
+            {
+                let ms = $pb.metadata_ring.verif_storage();
+                ms[m0] = PacketMetadata::padding(k);
+                ms[(m0 + 1) % MC] = PacketMetadata::packet(l1, h1);
+                if two {
+                    ms[(m0 + 2) % MC] = PacketMetadata::packet(l2, h2);
+                }
+            }
+            $pb.metadata_ring.verif_set(m0, if two { 3 } else { 2 });
+            {
+                let ps = $pb.payload_ring.verif_storage();
+                let mut i = 0;
+                while i < PC {
+                    if i < l1 { ps[i] = pat(h1, i); }
+                    if two && i < l2 { ps[l1 + i] = pat(h2, i); }
+                    i += 1;
+                }
+            }
+            $pb.payload_ring.verif_set(pc - k, k + l1 + (if two { l2 } else { 0 }));
+            $g.push(h1, l1);
+            if two { $g.push(h2, l2); }
+        };
+    }
+
+    // @harness props=C14,C09 tier=q to=900 mem=8 unwind=10 opts=nomem covers=2 funcs=PacketBuffer::peek;PacketBuffer::dequeue;PacketBuffer::dequeue_padding bounds=payload_capacity_2..=8;_state_=_[padding(k),_packet,_(packet)]_with_the_padding_at_the_head_(reachable_by_a_5-operation_history)
+    #[kani::proof]
+    pub(crate) fn pb_peek_with_padding_at_head() {
+        setup_padded!(pb, g);
+        let head = g.q[0];
+        match pb.peek() {
+            Ok((h, buf)) => {
+                assert!(*h == head.h && ok_payload(buf, head.h, head.len), "prop:c14_pb_peek_shows_head");
+            }
+            Err(Empty) => assert!(false, "prop:c14_pb_peek_empty_only_when_empty"),
+        }
+        kani::cover!(g.count() == 2, "padding, then two packets");
+        kani::cover!(g.count() == 1 && head.len >= 3, "padding, then one packet");
+        drain_equals(&mut pb, &g);
+    }
+
+    // @harness props=C14,C09 tier=q to=900 mem=8 unwind=10 opts=nomem covers=2 funcs=PacketBuffer::dequeue_with;PacketBuffer::dequeue;PacketBuffer::enqueue bounds=payload_capacity_2..=8;_state_=_[padding(k),_packet,_(packet)]_with_the_padding_at_the_head
+    #[kani::proof]
+    pub(crate) fn pb_dequeue_with_padding_at_head() {
+        setup_padded!(pb, g);
+        let head = g.q[0];
+        let decline: bool = kani::any();
+        let r = pb.dequeue_with(|h, buf| {
+            let good = *h == head.h && ok_payload(buf, head.h, head.len);
+            if decline { Err(good) } else { Ok(good) }
+        });
+        match r {
+            Err(Empty) => assert!(false, "prop:c14_pb_empty_only_when_empty"),
+            Ok(Ok(good)) => {
+                assert!(good && !decline, "prop:c14_pb_dequeue_with_hands_out_head");
+                g.pop();
+            }
+            Ok(Err(good)) => assert!(good && decline, "prop:c14_pb_dequeue_with_hands_out_head"),
+        }
+        // a further enqueue after the padding was consumed keeps FIFO order
+        let size = any_le(PC);
+        let h: u8 = kani::any();
+        if let Ok(buf) = pb.enqueue(size, h) {
+            fill(buf, h);
+            g.push(h, size);
+        }
+        kani::cover!(decline, "declined behind a padding record");
+        kani::cover!(!decline && g.count() >= 2, "popped, then another packet accepted");
+        drain_equals(&mut pb, &g);
+    }
+
     // @harness props=C14 tier=q to=600 mem=6 unwind=10 opts=nomem covers=1 funcs=PacketBuffer::reset;PacketBuffer::enqueue bounds=metadata_slots_0..=3;_payload_capacity_0..=8
     #[kani::proof]
     pub(crate) fn pb_reset() {
